@@ -506,6 +506,12 @@ Definition rdata_same (r r2 : rr) : Prop :=
   else if t =? T_MX then r_mx r2 = r_mx r
   else if t =? T_TXT then r_txts r2 = r_txts r
   else if t =? T_SRV then r_srv r2 = r_srv r
+  else if t =? T_NAPTR then r_naptr r2 = r_naptr r
+  else if t =? T_URI then r_uri r2 = r_uri r
+  else if t =? T_OPT then r_opt r2 = r_opt r
+  else if t =? T_RRSIG then r_rrsig r2 = r_rrsig r
+  else if t =? T_DNSKEY then r_dnskey r2 = r_dnskey r
+  else if (t =? T_SVCB) || (t =? T_HTTPS) then r_svcb r2 = r_svcb r
   else True.
 
 Definition rr_same (r r2 : rr) : Prop :=
@@ -835,7 +841,19 @@ Proof.
   destruct (r_type r =? T_TXT). { apply Ok_inj in H. subst rd. f_equal. symmetry. apply txts_wire_len. }
   destruct (r_type r =? T_SRV).
   { apply obind_ok in H as (n & Hn & H). apply Ok_inj in H. subst rd. rewrite (name_size_of_wire _ _ _ Hn). cbn [obind]. f_equal. lens. lia. }
-  match type of H with (if ?c then _ else _) = _ => destruct c end; discriminate.
+  destruct (r_type r =? T_NAPTR).
+  { apply obind_ok in H as (n & Hn & H). apply Ok_inj in H. subst rd. rewrite (name_size_of_wire _ _ _ Hn). cbn [obind]. f_equal.
+    pose proof (txts_wire_len [na_flags (r_naptr r); na_service (r_naptr r); na_regexp (r_naptr r)]) as Ht.
+    cbn [length sum_len fold_right] in Ht. lens. lia. }
+  destruct (r_type r =? T_URI). { apply Ok_inj in H. subst rd. f_equal. lens. lia. }
+  destruct (r_type r =? T_OPT). { apply Ok_inj in H. subst rd. f_equal. symmetry. apply opts_wire_len. }
+  destruct (r_type r =? T_RRSIG).
+  { apply obind_ok in H as (n & Hn & H). apply Ok_inj in H. subst rd. rewrite (name_size_of_wire _ _ _ Hn). cbn [obind]. f_equal. lens. lia. }
+  destruct (r_type r =? T_DNSKEY). { apply Ok_inj in H. subst rd. f_equal. lens. lia. }
+  destruct ((r_type r =? T_SVCB) || (r_type r =? T_HTTPS)).
+  { apply obind_ok in H as (n & Hn & H). apply Ok_inj in H. subst rd. rewrite (name_size_of_wire _ _ _ Hn). cbn [obind]. f_equal.
+    pose proof (params_wire_len (sb_params (r_svcb r))). lens. lia. }
+  discriminate.
 Qed.
 
 Lemma compute_size_of_wire : forall rs w, rrs_wire rs = Ok w -> exists n, compute_size rs = Ok n.
@@ -973,7 +991,13 @@ Proof.
     destruct (r_type r =? T_SOA); [rewrite Hd; reflexivity|].
     destruct (r_type r =? T_MX); [rewrite Hd; reflexivity|].
     destruct (r_type r =? T_TXT); [rewrite Hd; reflexivity|].
-    destruct (r_type r =? T_SRV); [rewrite Hd; reflexivity|]. reflexivity. }
+    destruct (r_type r =? T_SRV); [rewrite Hd; reflexivity|].
+    destruct (r_type r =? T_NAPTR); [rewrite Hd; reflexivity|].
+    destruct (r_type r =? T_URI); [rewrite Hd; reflexivity|].
+    destruct (r_type r =? T_OPT); [rewrite Hd; reflexivity|].
+    destruct (r_type r =? T_RRSIG); [rewrite Hd; reflexivity|].
+    destruct (r_type r =? T_DNSKEY); [rewrite Hd; reflexivity|].
+    destruct ((r_type r =? T_SVCB) || (r_type r =? T_HTTPS)); [rewrite Hd; reflexivity|]. reflexivity. }
   rewrite E. reflexivity.
 Qed.
 
